@@ -41,6 +41,8 @@ structure Mod where
   entries : List Entry
   /-- located fields of the shared vertex-output / fragment-input struct: (location, interpolation, sampling) -/
   io : List (Nat × String × String) := []
+  /-- `@invariant` on the `@builtin(position)` member of the vertex output -/
+  posInv : Bool := false
   deriving Repr, Inhabited
 
 def isResource (g : Global) : Bool := g.kind == "storage_rw" || g.kind == "storage_r" || g.kind == "uniform"
@@ -82,9 +84,9 @@ def ioDescr (sc : Nat) (f : Nat × String × String) : String :=
   let fl := interpFlags f.2.1 f.2.2
   s!"sc{sc}:loc{f.1}" ++ (if fl.isEmpty then "" else ":" ++ ",".intercalate fl)
 
-def stageIO (io : List (Nat × String × String)) (stage : String) (forcePointSize : Bool) : List String :=
+def stageIO (io : List (Nat × String × String)) (stage : String) (forcePointSize : Bool) (posInv : Bool := false) : List String :=
   match stage with
-  | "vertex" => ["sc1:builtin42", "sc1:loc0", "sc3:builtin0"] ++ io.map (ioDescr 3) ++ (if forcePointSize then ["sc3:builtin1"] else [])
+  | "vertex" => ["sc1:builtin42", "sc1:loc0", if posInv then "sc3:builtin0:invariant" else "sc3:builtin0"] ++ io.map (ioDescr 3) ++ (if forcePointSize then ["sc3:builtin1"] else [])
   | "fragment" => ["sc1:builtin15"] ++ io.map (ioDescr 1) ++ ["sc3:loc0"]
   | _ => []
 
@@ -100,7 +102,7 @@ def spvEntry (m : Mod) (version : Nat) (forcePointSize : Bool) (e : Entry) : Str
   -- the workgroup zero-initialisation polyfill reads LocalInvocationId (BuiltIn 27) in every compute
   -- entry point that can reach a workgroup variable
   let usesWg := (reach m e).any (fun i => ((m.globals[i]?).map (·.kind == "workgroup")).getD false)
-  let io := stageIO m.io e.stage forcePointSize ++ (if e.stage == "compute" && usesWg then ["sc1:builtin27"] else [])
+  let io := stageIO m.io e.stage forcePointSize m.posInv ++ (if e.stage == "compute" && usesWg then ["sc1:builtin27"] else [])
   let gl := if version ≥ 0x00010400 then (reach m e).filterMap (fun i => (m.globals[i]?).map globalDescr) else []
   let ls := if e.stage == "compute" then s!" ls={e.wg.1},{e.wg.2.1},{e.wg.2.2}" else ""
   s!"ep {e.name} model={execModel e.stage}{ls} iface=[{" ".intercalate (sortStr (io ++ gl))}]"
